@@ -22,7 +22,7 @@ BAD_SHAPES = ("unbal", "half", "closers", "enc_latin1", "enc_utf16", "enc_bom", 
 
 
 # other file names Pygments maps to the same seven lexers
-ALT_EXT = {"py": [".pyw", ".pyi", ".bzl"], "js": [".mjs", ".cjs", ".jsm"], "c": [".h", ".h", ".idc"],
+ALT_EXT = {"py": [".pyw", ".pyi", ".bzl"], "js": [".mjs", ".cjs", ".jsm"], "c": [".h", ".h", ".idc", ".xpm", ".xbm"],
            "cpp": [".hpp", ".cc", ".hh", ".cxx", ".C", ".H", ".ipp"], "ts": [], "java": [], "cs": []}
 
 
@@ -70,7 +70,7 @@ def nonce(rng):
     return rng.getrandbits(40)
 
 
-def base_tree(rng, n_lo=3, n_hi=9, p_bad=0.15, long_bias=0.0, weird=0.0, extras=0.5):
+def base_tree(rng, n_lo=3, n_hi=9, p_bad=0.15, long_bias=0.0, weird=0.0, extras=0.5, links=0.15):
     """Initial write ops for a tree; returns (ops, {path: content_id})."""
     ops, placed = [], {}
     for _ in range(rng.randint(n_lo, n_hi)):
@@ -105,4 +105,11 @@ def base_tree(rng, n_lo=3, n_hi=9, p_bad=0.15, long_bias=0.0, weird=0.0, extras=
                 placed[twin] = placed[src]
     for p, c in placed.items():
         ops.append({"op": "write", "path": p, "content": c})
+    if placed and rng.random() < links:
+        # a second name for one of the files: a symlink or a hard link, same or other language's name
+        src = rng.choice(sorted(placed))
+        lang = lang_of_path(src) or "py"
+        dst = new_path(rng, lang if rng.random() < 0.7 else rng.choice(LANGS))
+        if dst not in placed and not any(q.startswith(dst + "/") or dst.startswith(q + "/") for q in placed):
+            ops.append({"op": "link", "src": src, "dst": dst, "hard": rng.random() < 0.5})
     return ops, placed
